@@ -165,7 +165,7 @@ PROPS = {
         "timeout": {"quick": 600, "thorough": 3000},
         "parts": [
             part("ext", "TestVerif_C19_CLI", "cli", 64, 640, shards=(8, 16), cli=True),
-            part("ext", "TestVerif_C19_Backend", "backend", 120, 1500, shards=(4, 8)),
+            part("ext", "TestVerif_C19_Backend", "backend", 120, 1500, shards=(4, 8), prewrite=True),
             part("ext", "TestVerif_C19_Backend", "backend-race", 0, 200, shards=(0, 8), race=True, prewrite=True, tiers=["thorough"], env={"VERIF_PART": "backend"}),
         ],
     },
